@@ -168,6 +168,18 @@ Proof.
   rewrite forallb_forall in HF. apply (HF _ Hin).
 Qed.
 
+(** C05 on the dialogue: wherever the policy decides, 250 / 550 on RCPT and 250 on MAIL say what
+    the domain policy says. *)
+Theorem accept_rule : forall c items s,
+  forallb (accept_ok c) (dialogue (fst (run c s items))) = true.
+Proof.
+  intros c items s. unfold dialogue. rewrite forallb_forall. intros x Hx.
+  apply in_map_iff in Hx. destruct Hx as ([[it r] d] & <- & Hin). cbn [fst snd].
+  pose proof (run_forall c (fun e => accept_ok c (fst (fst e), snd (fst e)))
+                (fun s it s' r d H => step_accept_ok c s it s' r d H) items s) as HF.
+  rewrite forallb_forall in HF. apply (HF _ Hin).
+Qed.
+
 Theorem total_no_panic : forall c items, snd (run c init items) <> EPanic.
 Proof. intros. apply run_no_panic, inv_init. Qed.
 
